@@ -15,7 +15,7 @@ use crate::keys::{self, hexs};
 use crate::ops::{self, Nonce, split_token};
 use crate::payload::err_kind;
 use crate::pk;
-use crate::rng::{self, Draw, Mode};
+use crate::rng::{self, Answer, Draw, Mode};
 use crate::spec;
 
 #[derive(Clone, Copy, Debug, PartialEq, Eq)]
@@ -176,8 +176,10 @@ fn fix<V: Full>() -> Fix {
 }
 
 /// operations whose randomness comes through a seam whose *failure* the harness can inject
-fn failure_ownable<V: Full>(op: Op) -> bool {
-    V::RNG == RngKind::Getrandom && !(V::VER == 1 && matches!(op, Op::Sign | Op::GenSecret))
+/// (a failure is only ever injected into a draw that came through the owned seam, so every getrandom backend
+/// qualifies; RSA-PSS / RSA key generation simply have no such draw on the unchanged tree)
+fn failure_ownable<V: Full>(_op: Op) -> bool {
+    V::RNG == RngKind::Getrandom
 }
 /// operations whose random *values* the harness owns
 fn values_owned<V: Full>(op: Op) -> bool {
@@ -207,11 +209,12 @@ fn histories<V: Full>(prop: &mut Property, ctx: &Ctx) {
     let hists = Arc::new(hists);
     let n = hists.len() as u64;
     let fx = Arc::new(fix::<V>());
+    let thorough = ctx.thorough();
     prop.subs.push(
         Sub::new(
             format!("{name}/histories"),
             n,
-            format!("all operation sequences of length <= {depth} over {:?} with identical keys and messages, under a counter RNG; then failure injected at every draw index (1 deviation) and at every pair of draw indices (2 deviations); executions always run to completion", ops),
+            format!("all operation sequences of length <= {depth} over {:?} with identical keys and messages, under a counter RNG; then deviation-bounded DFS over the random source's answers: at every draw index one of {{failure, failure after a partial fill, all-0xff, all-zero}} (1 deviation) and every pair of such deviations (2 deviations; positions of the second taken from the run with the first); quick tier: value deviations only on single-operation histories and not two value deviations at once; executions always run to completion", ops),
             move |idx, describe| {
                 let h = &hists[idx as usize];
                 let mut o = Outcome::new();
@@ -221,10 +224,11 @@ fn histories<V: Full>(prop: &mut Property, ctx: &Ctx) {
                     o.sample = Some(json!({"backend": name, "history": format!("{h:?}")}));
                 }
                 // run 0: no deviation, learn the number of draws
-                let run = |fail: &[usize], o: &mut Outcome| -> usize {
+                let run = |fail: &[(usize, Answer)], o: &mut Outcome| -> usize {
                     let mut total = 0usize;
                     let mut seen: HashSet<Vec<u8>> = HashSet::new();
-                    let (outs, _) = rng::with(Mode::Counter(0xc16), fail, || h.iter().map(|op| exec::<V>(*op, &fx)).collect::<Vec<_>>());
+                    let values_deviate = fail.iter().any(|(_, a)| matches!(a, Answer::Ones | Answer::Zeros));
+                    let (outs, _) = rng::with_script(Mode::Counter(0xc16), fail, || h.iter().map(|op| exec::<V>(*op, &fx)).collect::<Vec<_>>());
                     o.evals += 1;
                     o.nontrivial += 1;
                     o.count("transitions", h.len() as u64);
@@ -234,7 +238,7 @@ fn histories<V: Full>(prop: &mut Property, ctx: &Ctx) {
                         let out = match out {
                             Ok(x) => x,
                             Err(p) => {
-                                o.violate(format!("{base}/panic"), format!("history {h:?} step {i} with RNG failures at {fail:?} panicked: {p}"), json!({}));
+                                o.violate(format!("{base}/panic"), format!("history {h:?} step {i} with RNG deviations {fail:?} panicked: {p}"), json!({}));
                                 continue;
                             }
                         };
@@ -252,7 +256,7 @@ fn histories<V: Full>(prop: &mut Property, ctx: &Ctx) {
                             (Err(_), true) => o.class("failed-closed"),
                             (Err(e), false) => {
                                 if values_owned::<V>(*op) || V::DET_SIG {
-                                    o.violate(format!("{base}/error"), format!("history {h:?} step {i} (RNG failures at {fail:?}, none in this step): operation failed with {e}"), json!({}))
+                                    o.violate(format!("{base}/error"), format!("history {h:?} step {i} (RNG deviations {fail:?}, no failure in this step): operation failed with {e}"), json!({}))
                                 } else {
                                     o.violate_env(format!("{base}/error"), format!("history {h:?} step {i}: operation failed with {e}"), json!({}))
                                 }
@@ -271,7 +275,8 @@ fn histories<V: Full>(prop: &mut Property, ctx: &Ctx) {
                                     }
                                 }
                                 for f in random_fields::<V>(*op, s) {
-                                    if !seen.insert(f.clone()) {
+                                    // (a source that answers with the same extreme value twice repeats by itself)
+                                    if !seen.insert(f.clone()) && !values_deviate {
                                         o.violate(format!("{base}/repeated-randomness"), format!("history {h:?} step {i}: a nonce / salt / ephemeral key / generated key repeats an earlier one of the same history"), json!({"field": hexs(&f)}));
                                     }
                                 }
@@ -282,13 +287,27 @@ fn histories<V: Full>(prop: &mut Property, ctx: &Ctx) {
                 };
                 let d = run(&[], &mut o);
                 o.count("draws_in_default_run", d as u64);
-                if V::RNG == RngKind::Getrandom {
-                    for i in 0..d {
-                        run(&[i], &mut o);
-                    }
-                    for i in 0..d {
-                        for j in i + 1..d {
-                            run(&[i, j], &mut o);
+                // deviation-bounded DFS over the answers of the random source: a deviation may change how many draws
+                // follow (a rejected candidate is redrawn), so the positions of the next deviation are taken from the
+                // run that contains the earlier ones
+                let fails: &[Answer] = if V::RNG == RngKind::Getrandom { &[Answer::Fail, Answer::FailPartial, Answer::Ones, Answer::Zeros] } else if V::RNG == RngKind::Sodium { &[Answer::Ones, Answer::Zeros] } else { &[] };
+                // two value deviations and value deviations in longer histories: thorough tier
+                let wide = thorough || h.len() == 1;
+                for i in 0..d {
+                    for a in fails {
+                        if !wide && !matches!(a, Answer::Fail) {
+                            continue;
+                        }
+                        let d1 = run(&[(i, *a)], &mut o);
+                        for j in i + 1..d1.max(d) {
+                            for b in fails {
+                                let both_values = !matches!(a, Answer::Fail | Answer::FailPartial) && !matches!(b, Answer::Fail | Answer::FailPartial);
+                                if (!wide && !matches!(b, Answer::Fail)) || (!thorough && both_values) {
+                                    continue;
+                                }
+                                // after a failure the operation has ended; a second deviation only matters in a later operation
+                                run(&[(i, *a), (j, *b)], &mut o);
+                            }
                         }
                     }
                 }
